@@ -284,6 +284,7 @@ func runC16(p *Prog, r *Report, tier string) {
 	}
 	// record constructors / accessors
 	checkRecordSummaries(p, r)
+	checkSetAccessors(p, r, "R-VALUE.set-accessors")
 	lengthAccounting(p, r, "R-CODEC.length")
 	checkMsgAssembly(p, r)
 }
@@ -428,5 +429,38 @@ func checkRecordSummaries(p *Prog, r *Report) {
 			}
 		})
 		r.Check(ok, "R-EQUIV.record-length", fnKey(f)+": the accumulated len", p.pos(f.Pos()), "return d.len", "a data record's reported length is not the accumulated element lengths", true)
+	}
+}
+
+// checkSetAccessors: the read accessors other rules rely on return the maintained fields (imported by C08).
+func checkSetAccessors(p *Prog, r *Report, rule string) {
+	want := map[string]func(v ssa.Value) bool{
+		"GetRecords":      func(v ssa.Value) bool { return isFieldLoad(v, "pkg/entities.set.records") },
+		"GetHeaderBuffer": func(v ssa.Value) bool { return isFieldLoad(v, "pkg/entities.set.headerBuffer") },
+		"GetSetType":      func(v ssa.Value) bool { return isFieldLoad(v, "pkg/entities.set.setType") },
+		"GetNumberOfRecords": func(v ssa.Value) bool {
+			cv, ok := v.(*ssa.Convert)
+			if !ok {
+				return false
+			}
+			s, isL := lenOfValue(cv.X)
+			return isL && isFieldLoad(s, "pkg/entities.set.records")
+		},
+	}
+	for name, chk := range want {
+		f := p.Fn("(*pkg/entities.set)." + name)
+		if f == nil {
+			r.Undecided(rule, "(*pkg/entities.set)."+name, "pkg/entities/set.go", "not found")
+			continue
+		}
+		ok := false
+		n := 0
+		eachInstr(f, func(in ssa.Instruction) {
+			if rt, isR := in.(*ssa.Return); isR && len(rt.Results) == 1 {
+				n++
+				ok = chk(rt.Results[0])
+			}
+		})
+		r.Check(ok && n == 1, rule, fnKey(f)+": returns the maintained field", p.pos(f.Pos()), "accessor of the builder's own state", name+" does not return the state the builder maintains (record count / records / header / type)", false)
 	}
 }
